@@ -26,7 +26,7 @@ class Ctx:
     def cfg(self, f):
         from .cfg import CFG
 
-        return self.get(("cfg", f.qual), lambda: CFG(f.body))
+        return self.get(("cfg", f.qual, id(f.node)), lambda: CFG(f.body))
 
     @property
     def types(self):
